@@ -36,6 +36,11 @@ func installFdSeam() {
 			l.FailWrites--
 			l.w.Faults["link_write_error"]++
 			l.w.Log.Byte(0xfe)
+			if l.w.OnLinkError != nil {
+				if e, err := codec.DecodeEth(append(append([]byte(nil), b1...), b2...)); err == nil {
+					l.w.OnLinkError(&Frame{ID: -1, Link: l.Idx, Proto: tcpip.NetworkProtocolNumber(e.EtherType), Data: append([]byte(nil), e.Payload...), At: time.Since(l.w.T0), Eth: true})
+				}
+			}
 			return tcpip.ErrWouldBlock, true
 		}
 		frame := append(append([]byte(nil), b1...), b2...)
